@@ -121,6 +121,24 @@ func init() {
 		_, err := util.ReadKey(unhx(a["b"]))
 		return errCls(err), ""
 	}
+	// the exported node parsers without an error result (known finding F12-wrappers)
+	workerOps["node.wrapper"] = func(a map[string]string) (string, string) {
+		b := unhx(a["b"])
+		if len(b) < 4 {
+			return "err", "short"
+		}
+		hdr := device.EFIDevicePath{Type: device.DevicePathType(b[0]), SubType: device.DevicePathSubType(b[1]), Length: [2]uint8{b[2], b[3]}}
+		r := bytes.NewReader(b[4:])
+		switch hdr.Type {
+		case device.Hardware:
+			device.ParseHardwareDevicePath(r, &hdr)
+		case device.ACPI:
+			device.ParseACPIDevicePath(r, &hdr)
+		case device.MessagingDevicePath:
+			device.ParseMessagingDevicePath(r, &hdr)
+		}
+		return "ok", ""
+	}
 	workerOps["readcert"] = func(a map[string]string) (string, string) {
 		_, err := util.ReadCert(unhx(a["b"]))
 		return errCls(err), ""
@@ -183,7 +201,11 @@ func c14Eval(c *Ctx, cs Case) {
 	case "panic":
 		fail("decoding panicked", "c14.panic/"+ep+"/"+site)
 	case "exit":
-		fail("decoding terminated the process (log.Fatal / os.Exit)", "c14.exit/"+ep+"/"+site)
+		m := "c14.exit/" + ep + "/" + site
+		if ep == "node.wrapper" {
+			m = "c14.static/device-wrappers"
+		}
+		fail("decoding terminated the process (log.Fatal / os.Exit)", m)
 	case "oom":
 		fail(fmt.Sprintf("decoding a %d-byte input ran out of memory (allocation unrelated to the input size)", len(b)), "c14.alloc/"+ep)
 	case "timeout":
@@ -333,6 +355,11 @@ func c14Gen(c *Ctx) {
 		hd[4+36] = byte(f)
 		hd[4+37] = byte(c.Rng.Intn(4))
 		emit("devicepath", "partition-format", "hd-format", append(hd, 0x7f, 0xff, 4, 0))
+	}
+	// the exported node parsers (no error result): truncated nodes — re-confirms the known finding
+	for _, hdr := range [][]byte{{1, 1, 6, 0}, {2, 1, 12, 0}, {2, 2, 12, 0}, {3, 5, 6, 0}, {3, 10, 20, 0}} {
+		emit("node.wrapper", "truncated-node", "device-wrappers", append(append([]byte{}, hdr...), 0x01))
+		emit("node.wrapper", "complete-node", "", append(append([]byte{}, hdr...), randBytes(c, 16)...))
 	}
 	// --- strings, boot order, GUID lists, attribute-prefixed files, GUID text ---
 	for _, b := range [][]byte{nil, {0}, {0, 0}, {0x41}, {0x41, 0}, {0x41, 0, 0, 0}, {0, 0xd8}, {0, 0xd8, 0, 0}, bytes.Repeat([]byte{0x41, 0}, 5000)} {
